@@ -726,7 +726,7 @@ pub fn level_of(prop: Prop) -> &'static str {
 }
 
 pub fn rule_of(prop: Prop) -> String {
-    let common = "runs are seeded operation histories over a pool of live GenericArray objects (lengths 0..=8 dense, {9,10,11,12,15,16,17,31,32,33,64,100,1024} sparse; element kinds Tr = drop-tracked with heap payload, Al = the same in a 32-byte-aligned shell, Zt = drop-tracked zero-sized, Pl = plain no-Drop, Zp = zero-sized plain; zip/map also with a second plain element type); run i of a batch uses seed splitmix(VERIF_SEED, property, i). ";
+    let common = "runs are seeded operation histories over a pool of live GenericArray objects (lengths 0..=8 dense, {9,10,11,12,15,16,17,31,32,33,64,65,100,101,1024,1025,2047,4096,4100} sparse; element kinds Tr = drop-tracked with heap payload, Al = the same in a 32-byte-aligned shell, Zt = drop-tracked zero-sized, Pl = plain no-Drop, Zp = zero-sized plain; zip/map also with a second plain element type); run i of a batch uses seed splitmix(VERIF_SEED, property, i). ";
     let m = match prop {
         Prop::C03 => "A case is one executed operation; distinct_nontrivial counts distinct tuples (operation kind, operand length(s), receiver/argument form, arguments that select a code path) of operations that actually acted on an object (no-ops on an empty pool are excluded).",
         Prop::C04 => "A case is one operation; distinct_nontrivial counts distinct tuples (operation kind, length, form, fault fired?, number of callback calls made before the injected panic) — i.e. distinct crash points reached with the panic actually fired, plus the fault-free tuples of the surrounding history.",
